@@ -257,6 +257,54 @@ theorem train_lossless (select : TrainSt → Option Pair) (hsel : SelectValid se
   have : c ≤ r.2 := this
   simp [clip, this]
 
+/-! ### Length: an encoding is never longer than its string; strings of length ≤ 1 are fixed points -/
+
+theorem contract_length_le (p : Pair) (c : Int) : ∀ s : List Int, (contract p c s).length ≤ s.length
+  | [] => by simp [contract]
+  | [_] => by simp [contract]
+  | a :: b :: rest => by
+    rw [contract]
+    split
+    · have := contract_length_le p c rest
+      simp only [List.length_cons]; omega
+    · have := contract_length_le p c (b :: rest)
+      simp only [List.length_cons] at this ⊢; omega
+
+theorem replay_length_le (cl : List Pair) : ∀ (next : Int) (s : List Int),
+    (replay cl next s).length ≤ s.length := by
+  induction cl with
+  | nil => intro next s; simp [replay]
+  | cons p rest ih =>
+    intro next s
+    rw [replay]
+    exact Nat.le_trans (ih _ _) (contract_length_le p next s)
+
+/-- **Within the budget, per string**: `transform`'s encoding of a string has at most as many codes as
+the string has characters — any merge list, any string. -/
+theorem encode_length_le (cl : List Pair) (mcc : Int) (chars : List Int) :
+    (encode cl mcc chars).length ≤ chars.length := by
+  unfold encode
+  simpa using replay_length_le cl (mcc + 1) (chars.map (clip mcc))
+
+theorem replay_short (cl : List Pair) : ∀ (next : Int) (s : List Int), s.length ≤ 1 → replay cl next s = s := by
+  induction cl with
+  | nil => intro next s _; simp [replay]
+  | cons p rest ih =>
+    intro next s hs
+    have hc : contract p next s = s := by
+      match s, hs with
+      | [], _ => simp [contract]
+      | [_], _ => simp [contract]
+    rw [replay, hc]
+    exact ih _ _ hs
+
+/-- the empty string and one-character strings (the inputs on which the unrepaired `contract_pair`
+returned uninitialised memory) encode to themselves, clipped — whatever was learned -/
+theorem encode_short (cl : List Pair) (mcc : Int) (chars : List Int) (h : chars.length ≤ 1) :
+    encode cl mcc chars = chars.map (clip mcc) := by
+  unfold encode
+  exact replay_short cl _ _ (by simpa using h)
+
 /-! ### Non-vacuity: `["abab", "a", ""]` with two merges (a=97, b=98). -/
 
 def exSelect : TrainSt → Option Pair := fun st =>
